@@ -531,7 +531,26 @@ class Job:
                     jobs=[self], filename=self._statepoint_filename
                 )
                 self._statepoint_requires_init = False
-            self.statepoint.reset(new_statepoint)
+            try:
+                self.statepoint.reset(new_statepoint)
+            except DestinationExistsError:
+                # The in-memory state point has already been restored.
+                raise
+            except Exception:
+                # The new state point was rejected while it was being applied
+                # (e.g., an invalid key): nothing was saved, so the in-memory
+                # state point must describe the job as it still is. Clear it
+                # first, because updating in place keeps entries that merely
+                # compare equal.
+                statepoint = self._statepoint
+                with statepoint._suspend_sync:
+                    statepoint._update({})
+                    if self._cached_statepoint is not None:
+                        statepoint._update(self._cached_statepoint)
+                if self._cached_statepoint is None:
+                    # The state point was never loaded: load it lazily again.
+                    self._statepoint_requires_init = True
+                raise
 
         # Register the state point the job actually has now (which is what
         # the id was computed from), not the caller's mapping.
